@@ -32,7 +32,9 @@ type treeVec struct {
 		N     int   `json:"n"` // how many of attrs are the record's own
 		Err   int   `json:"err"`
 		Attrs []int `json:"attrs"`
+		Vals  []int `json:"vals"` // what each attribute evaluates to when the record is handled (0: not a live one)
 	} `json:"out"`
+	Live int     `json:"live"` // kind of the live values (0: none), see liveValuer
 	Recs [][]int `json:"recs"` // attribute ids of the records the path creates, in order
 	Rets []int   `json:"rets"` // how each Handle call of the path ends: 0 line, 1 the writer's error, 3 the writer's panic // predicted line of every log step of the path
 	Lvls []int   `json:"lvls"` // probe levels
@@ -99,6 +101,8 @@ func opsKey(ops [][]int) string {
 			fmt.Fprintf(&b, "R%d<-rec%d", o[1], o[2])
 		case 6:
 			fmt.Fprintf(&b, "W!%s", [...]string{"ok", "err", "short", "panic"}[o[1]&3])
+		case 7:
+			fmt.Fprintf(&b, "cell=%d", o[1])
 		case 3:
 			fmt.Fprintf(&b, "G%d", o[1])
 		}
@@ -148,6 +152,17 @@ func replayOne(res *vh.Result, st *treeStats, no int, raw []byte, v *treeVec, sa
 	ctr := int(salt % 1000)
 	nlog := 0
 
+	// The cell behind the live values: set by the path's own <<7, c>> steps, or,
+	// on paths without them, changed by the harness before every Handle call
+	// (the environment may do that at any time).
+	var cell int64
+	lc := liveCtx{kind: v.Live, get: func() int64 { return cell }}
+	autoTick := v.Live > 0
+	for _, op := range v.Ops {
+		if op[0] == 7 {
+			autoTick = false
+		}
+	}
 	// A record the "caller" built and keeps: the value is handed to Handle as
 	// it is, every time; the reference works on fresh, equal records.
 	type liveRec struct {
@@ -157,7 +172,7 @@ func replayOne(res *vh.Result, st *treeStats, no int, raw []byte, v *treeVec, sa
 	}
 	mkRec := func(lv int, ids []int, sz int, calls []int) liveRec {
 		ctr++
-		attrs, msg := enlarge(sz, ids, concretise(ids, salt, attrTable), messages[ctr%len(messages)])
+		attrs, msg := enlarge(sz, ids, concretiseL(ids, salt, attrTable, lc), messages[ctr%len(messages)])
 		rs := recordSpec{level: slog.Level(lv), msg: msg, zeroT: ctr%3 == 0, pc: ctr%2 == 0, attrs: attrs, calls: calls}
 		return liveRec{rs: rs, val: rs.build(nil), ids: ids}
 	}
@@ -185,6 +200,9 @@ func replayOne(res *vh.Result, st *treeStats, no int, raw []byte, v *treeVec, sa
 		if stop {
 			return
 		}
+		if autoTick {
+			cell++
+		}
 		w.reset()
 		armedBefore := w.next
 		var herr error
@@ -203,6 +221,24 @@ func replayOne(res *vh.Result, st *treeStats, no int, raw []byte, v *treeVec, sa
 		wantMsg, rerr := ref.line(lr.rs, accC[h])
 		if rerr != nil {
 			panic(rerr) // harness trouble, reported as exit != 0
+		}
+		if v.Live > 0 {
+			// The reference evaluates the live values now: its line must show
+			// the cell's current value for every one of them.
+			low := strings.ToLower(wantMsg)
+			chk := func(id int) {
+				if isLiveID(id) && !strings.Contains(low, fmt.Sprintf("%s:state=%d", tag(id), cell)) {
+					panic(fmt.Sprintf("reference line does not show live attribute %d at %d: %s", id, cell, clipStr(wantMsg)))
+				}
+			}
+			for k, id := range lr.ids {
+				if k < len(lr.rs.attrs) && lr.rs.attrs[k].Value.Kind() == slog.KindLogValuer {
+					chk(id)
+				}
+			}
+			for _, id := range v.Attrs[h-1] {
+				chk(id)
+			}
 		}
 		lv, recIDs := int(lr.rs.level), lr.ids
 		mism := func(w2 string, det map[string]any) {
@@ -321,7 +357,7 @@ func replayOne(res *vh.Result, st *treeStats, no int, raw []byte, v *treeVec, sa
 				return fmt.Errorf("vector %d: bad derive", no)
 			}
 			ids := v.Attrs[nw-1]
-			batch := concretise(ids[len(ids)-k:], salt, attrTable)
+			batch := concretiseL(ids[len(ids)-k:], salt, attrTable, lc)
 			if batch == nil && ctr%2 == 0 {
 				batch = []slog.Attr{} // empty, but not nil
 			}
@@ -339,7 +375,7 @@ func replayOne(res *vh.Result, st *treeStats, no int, raw []byte, v *treeVec, sa
 				return nil
 			}
 			hs = append(hs, child)
-			accC = append(accC, concretise(ids, salt, attrTable))
+			accC = append(accC, concretiseL(ids, salt, attrTable, lc))
 		case 4, 5:
 			// A Handle call: rets says how it ends; only a good one has a line in out.
 			if nret >= len(v.Rets) || len(op) < 3 || op[1] >= len(hs) {
@@ -388,6 +424,21 @@ func replayOne(res *vh.Result, st *treeStats, no int, raw []byte, v *treeVec, sa
 					return fmt.Errorf("vector %d: predicted line %d is not rec ++ attrs[h]", no, nout)
 				}
 				isErr = pred.Err == 1
+				// What the specification says the live attributes evaluate to.
+				if v.Live > 0 && !autoTick {
+					if len(pred.Vals) != len(pred.Attrs) {
+						return fmt.Errorf("vector %d: vals do not match attrs", no)
+					}
+					for k, id := range pred.Attrs {
+						wantV := int64(0)
+						if isLiveID(id) {
+							wantV = cell
+						}
+						if int64(pred.Vals[k]) != wantV {
+							return fmt.Errorf("vector %d: the specification evaluates attribute %d to %d, the harness to %d", no, id, pred.Vals[k], wantV)
+						}
+					}
+				}
 			}
 			handleR(h, lr, isErr, fmt.Sprintf("step %d", i+1), want)
 		case 6:
@@ -395,6 +446,11 @@ func replayOne(res *vh.Result, st *treeStats, no int, raw []byte, v *treeVec, sa
 				return fmt.Errorf("vector %d: bad fault op %v", no, op)
 			}
 			w.next = op[1]
+		case 7:
+			if len(op) != 2 || v.Live == 0 {
+				return fmt.Errorf("vector %d: bad tick op %v", no, op)
+			}
+			cell = int64(op[1])
 		case 3:
 			h := op[1]
 			var g slog.Handler
